@@ -267,7 +267,7 @@ class Ctx:
         key = (name, arity, out)
         if key not in self.ufs:
             sorts = [z3.RealSort()] * arity + [z3.RealSort() if out == "real" else z3.IntSort()]
-            self.ufs[key] = z3.Function(name, *sorts)
+            self.ufs[key] = z3.Function("uf_" + name, *sorts)
         return self.ufs[key]
 
     def uf_apply(self, name, args):
@@ -280,6 +280,14 @@ class Ctx:
         zs = [to_real_z(a) for a in args]
         t = f(*zs)
         r = Sym(t, "real")
+        if name in ("sqrt", "exp"):
+            # strictly increasing: instantiate pairwise with earlier applications
+            seen = self.__dict__.setdefault("_mono_" + name, [])
+            for (a0, t0) in seen:
+                if a0.get_id() != zs[0].get_id():
+                    self.fact(z3.And(z3.Implies(a0 < zs[0], t0 < t), z3.Implies(zs[0] < a0, t < t0),
+                                     z3.Implies(a0 == zs[0], t0 == t)))
+            seen.append((zs[0], t))
         if name == "sqrt":
             self.fact(t >= 0)
             self.fact(z3.Implies(zs[0] >= 0, t * t == zs[0]))
@@ -909,6 +917,8 @@ class Interp:
             pass
         if isinstance(v, type):
             return TypeRef(v.__name__, (v,))
+        if type(v).__module__ in ("typing", "types"):
+            return TypeRef(str(v), ())
         raise Unsupported(f"live value {what} of type {type(v).__name__}")
 
     def ex_Attribute(self, e, frame):
